@@ -13,7 +13,7 @@ import ast
 import z3
 
 from pyvc.unit import Unit, NotGenerated
-from pyvc.values import (VInt, VStr, VSeq, VBool, VObj, VPy, STR, I, B, OBJ, strlen, charat, fresh, fresh_val, seq_read)
+from pyvc.values import (QAll, QEx, VInt, VStr, VSeq, VBool, VObj, VPy, STR, I, B, OBJ, strlen, charat, fresh, fresh_val, seq_read)
 from .shapes import RANGE, RECORDS
 from .c_core_range import and_ as range_and, OV
 
@@ -33,17 +33,19 @@ def text_axioms(eng, s):
     i, j = z3.Ints("i!ta j!ta")
     n = nl(s)
     facts = [n >= 0, ls(s, 0) == 0, ls(s, n) == strlen(s),
-             z3.ForAll([i], z3.Implies(z3.And(0 <= i, i < n), z3.And(strlen(line_of(s, i)) >= 1, ls(s, i + 1) == ls(s, i) + strlen(line_of(s, i)))))]
+             QAll([i], z3.Implies(z3.And(0 <= i, i < n), z3.And(strlen(line_of(s, i)) >= 1, ls(s, i + 1) == ls(s, i) + strlen(line_of(s, i)))))]
+    from pyvc.values import substr
+    facts.append(QAll([i], z3.Implies(z3.And(0 <= i, i < n), line_of(s, i) == substr(s, ls(s, i), ls(s, i + 1)))))
     for k, f in enumerate(facts):
         eng.axioms_once(("text", str(s), k), f)
-    eng.assumptions.add("assumed contract: str.splitlines(keepends=True) yields non-empty pieces whose concatenation is the string (CPython)")
+    eng.assumptions.add("assumed contract: str.splitlines(keepends=True) / io.StringIO(s, newline='').readlines() yield non-empty pieces whose concatenation is the string (CPython)")
 
 
 def monotone_lemma(eng, s):
     """ls is monotone: forall 0 <= i <= j <= nl: ls(i) <= ls(j).  Proved by induction on j in unit `lemma:ls-monotone`
     (base + step obligations); here its conclusion is assumed."""
     i, j = z3.Ints("i!ml j!ml")
-    eng.axioms_once(("mono", str(s)), z3.ForAll([i, j], z3.Implies(z3.And(0 <= i, i <= j, j <= nl(s)), ls(s, i) <= ls(s, j))))
+    eng.axioms_once(("mono", str(s)), QAll([i, j], z3.Implies(z3.And(0 <= i, i <= j, j <= nl(s)), ls(s, i) <= ls(s, j))))
     eng.assumptions.add("lemma ls-monotone (induction schema; base and step discharged in unit core.lemma:ls-monotone)")
 
 
@@ -58,9 +60,27 @@ def _splitlines(eng, args, kw, env, pc, node):
     return VSeq({(): z3.Lambda([k], line_of(s.t, k))}, nl(s.t), "str")
 
 
+def _stringio(eng, args, kw, env, pc, node):
+    from pyvc.values import VRec
+    from pyvc.engine import Undecided
+    nlv = kw.get("newline")
+    if nlv is None or getattr(nlv, "lit", None) != "":
+        raise Undecided("io.StringIO without newline=''")
+    return VRec("StringIO", {"text": args[0]})
+
+
+def _readlines(eng, args, kw, env, pc, node):
+    """io.StringIO(s, newline="").readlines(): the lines of s as the parser counts them (\\n, \\r\\n, \\r), line ends kept.
+    Same ASSUMED contract as for splitlines(keepends=True): pieces non-empty, concatenation is s."""
+    s = args[0].fields["text"]
+    text_axioms(eng, s.t)
+    k = z3.Int("k!sl")
+    return VSeq({(): z3.Lambda([k], line_of(s.t, k))}, nl(s.t), "str")
+
+
 def g_ls(eng, args, kw, env, pc, node):
     text_axioms(eng, args[0].t)
-    return VInt(ls(args[0].t, args[1].t))
+    return VInt(ls(args[0].t, eng.as_int(args[1], pc, 0).t))
 
 
 def g_nl(eng, args, kw, env, pc, node):
@@ -87,7 +107,7 @@ line_starts = Unit(
              ("entry-is-prefix-sum", "forall(lambda k: implies(0 <= k and k < len(result), result[k] == ls(source, k)))")],
     loops={0: {"inv": ["len(charnos) == _i", "start == ls(source, _i)",
                        "forall(lambda k: implies(0 <= k and k < _i, charnos[k] == ls(source, k)))"]}},
-    calls={"str.splitlines": _splitlines}, ghost=TEXT_GHOST, props=("C13", "C04", "C20"),
+    calls={"str.splitlines": _splitlines, "io.StringIO": _stringio, "StringIO.readlines": _readlines}, ghost=TEXT_GHOST, props=("C13", "C04", "C20"),
     local_shapes={"charnos": ("seq", "int")},
 )
 
@@ -106,8 +126,8 @@ def gen_monotone_lemma(g):
     i, j = z3.Ints("i j")
     n = nl(s)
     ax = [n >= 0, ls(s, 0) == 0,
-          z3.ForAll([i], z3.Implies(z3.And(0 <= i, i < n), z3.And(strlen(line_of(s, i)) >= 1, ls(s, i + 1) == ls(s, i) + strlen(line_of(s, i)))))]
-    P = lambda jj: z3.ForAll([i], z3.Implies(z3.And(0 <= i, i <= jj), ls(s, i) <= ls(s, jj)))
+          QAll([i], z3.Implies(z3.And(0 <= i, i < n), z3.And(strlen(line_of(s, i)) >= 1, ls(s, i + 1) == ls(s, i) + strlen(line_of(s, i)))))]
+    P = lambda jj: QAll([i], z3.Implies(z3.And(0 <= i, i <= jj), ls(s, i) <= ls(s, jj)))
     g.oblige("lemma", "ls-monotone:base", ax, P(z3.IntVal(0)), 763)
     g.oblige("lemma", "ls-monotone:step", ax + [0 <= j, j < n, P(j)], P(j + 1), 763)
     g.assumptions.add("induction schema on the natural numbers (the only trusted step of the lemma)")
@@ -172,6 +192,12 @@ marked = z3.Function("line_has_ignore_comment", STR, B)
 
 def _pattern_search(eng, args, kw, env, pc, node):
     eng.assumptions.add("regex `#\\s*pyrefact\\s*:\\s*(skip_file|ignore)` is an uninterpreted predicate on a line (pattern.search)")
+    if len(args) == 4:
+        # pattern.search(s, pos, endpos) searches s[pos:endpos]
+        from pyvc.values import substr
+        s, a, b = args[1], eng.as_int(args[2], pc, 0), eng.as_int(args[3], pc, 0)
+        text_axioms(eng, s.t)
+        return VBool(marked(substr(s.t, a.t, b.t)))
     return VBool(marked(args[1].t))
 
 
@@ -188,11 +214,95 @@ has_ignore_comment = Unit(
               "iff(result, exists(lambda i: 0 <= i and i < nl(source) and ov(rng, Range(ls(source, i), ls(source, i + 1))) and marked_line(source, i)))")],
     loops={0: {"inv": ["character_count == ls(source, _i)",
                        "forall(lambda k: implies(0 <= k and k < _i, not (ov(rng, Range(ls(source, k), ls(source, k + 1))) and marked_line(source, k))))"]}},
-    calls={"str.splitlines": _splitlines, "re.compile": ("havoc", "obj"), "obj.search": _pattern_search, "Range.__and__": ("contract", range_and)},
+    calls={"str.splitlines": _splitlines, "re.compile": ("havoc", "obj"), "obj.search": _pattern_search, "Range.__and__": ("contract", range_and),
+           "_get_line_start_charnos": ("contract", line_starts_summary), "io.StringIO": _stringio, "StringIO.readlines": _readlines},
     ghost=IGN_GHOST, records=REC, props=("C20", "C10"),
 )
 
 UNITS.append(has_ignore_comment)
+
+# ----------------------------------------------------------------------------- _get_charno (byte column -> character number)
+u8c = z3.Function("utf8_prefix_chars", STR, I, I, I)     # (source, line start, byte column) -> number of characters
+isascii = z3.Function("isascii", STR, B)
+
+
+def _u8_axioms(eng, s, start, col):
+    t = u8c(s, start, col)
+    eng.axioms_once(("u8c", str(t)), z3.And(0 <= t, t <= col, z3.Implies(col < 0, t == 0)))
+    eng.assumptions.add("assumed contract: len(prefix.encode('utf-8')[:col].decode('utf-8', errors='ignore')) is between 0 and min(col, len(prefix)) (CPython codecs)")
+    return t
+
+
+def g_charpos(eng, args, kw, env, pc, node):
+    """charpos(source, lineno, col): character number of the parser position (lineno, byte column col)"""
+    s, ln, col = args
+    ln, col = eng.as_int(ln, pc, 0), eng.as_int(col, pc, 0)
+    text_axioms(eng, s.t)
+    start = ls(s.t, ln.t - 1)
+    return VInt(start + z3.If(isascii(s.t), col.t, _u8_axioms(eng, s.t, start, col.t)))
+
+
+def _str_isascii(eng, args, kw, env, pc, node):
+    return VBool(isascii(args[0].t))
+
+
+def _str_encode(eng, args, kw, env, pc, node):
+    from pyvc.engine import Undecided
+    s = args[0]
+    w = getattr(s, "window", None)
+    if w is None:
+        raise Undecided("encode of a string that is not a source window")
+    o = VObj(fresh("bytes", OBJ))
+    o.meta = {"window": w}
+    return o
+
+
+def _bytes_slice(eng, base, lo, hi, pc, line):
+    from pyvc.engine import Undecided
+    if lo is not None or hi is None or not hasattr(base, "meta"):
+        raise Undecided("bytes slice of another form", line)
+    o = VObj(fresh("bytes", OBJ))
+    o.meta = dict(base.meta, col=hi)
+    return o
+
+
+def _bytes_decode(eng, args, kw, env, pc, node):
+    from pyvc.engine import Undecided
+    b = args[0]
+    if not hasattr(b, "meta") or "col" not in b.meta:
+        raise Undecided("decode of unknown bytes")
+    src, lo, ln = b.meta["window"]
+    t = _u8_axioms(eng, src.t, lo, b.meta["col"])
+    w = VStr(fresh("decoded", STR))
+    pc.append(z3.And(strlen(w.t) == t, t <= ln))
+    return w
+
+
+U8_CALLS = {"str.isascii": _str_isascii, "str.encode": _str_encode, "obj.decode": _bytes_decode}
+
+get_charno = Unit(
+    "core", "_get_charno",
+    params={"source": "str", "line_start_charnos": ("seq", "int"), "lineno": "int", "col_offset": "int"}, returns="int",
+    requires=[("line-starts-are-prefix-sums", "len(line_start_charnos) == nl(source) and forall(lambda k: implies(0 <= k and k < nl(source), line_start_charnos[k] == ls(source, k)))"),
+              ("lineno-in-range", "1 <= lineno and lineno <= nl(source)"),
+              ("column-nonnegative", "0 <= col_offset"), ("monotone-lemma", "use_monotone(source)")],
+    ensures=[("is-character-position", "result == charpos(source, lineno, col_offset)"),
+             ("within-byte-column", "ls(source, lineno - 1) <= result and result <= ls(source, lineno - 1) + col_offset"),
+             ("ascii-column-is-character-column", "implies(source.isascii(), result == ls(source, lineno - 1) + col_offset)")],
+    calls=U8_CALLS, subscripts={"slice:VObj": _bytes_slice}, ghost=dict(TEXT_GHOST, charpos=g_charpos), props=("C13", "C04"),
+    exc_mode={"IndexError": "oblige"},
+)
+
+get_charno_summary = Unit(
+    "core", "_get_charno", name="core._get_charno#summary", pure=True,
+    params={"source": "str", "line_start_charnos": ("seq", "int"), "lineno": "int", "col_offset": "int"}, returns="int",
+    requires=[("line-starts-are-prefix-sums", "len(line_start_charnos) == nl(source) and forall(lambda k: implies(0 <= k and k < nl(source), line_start_charnos[k] == ls(source, k)))"),
+              ("lineno-in-range", "1 <= lineno and lineno <= nl(source)"),
+              ("column-nonnegative", "0 <= col_offset")],
+    ensures=[("is-character-position", "result == charpos(source, lineno, col_offset)")],
+    calls=U8_CALLS, ghost=dict(TEXT_GHOST, charpos=g_charpos),
+)
+UNITS.append(get_charno)
 
 # ----------------------------------------------------------------------------- get_charnos
 lead = z3.Function("leading_spaces", STR, I)
@@ -204,9 +314,9 @@ def _space_axioms(eng, c):
     k = z3.Int("k!sp")
     n = strlen(c)
     eng.axioms_once(("lead", str(c)), z3.And(0 <= lead(c), lead(c) <= n, z3.Implies(lead(c) < n, charat(c, lead(c)) != SP),
-                                             z3.ForAll([k], z3.Implies(z3.And(0 <= k, k < lead(c)), charat(c, k) == SP))))
+                                             QAll([k], z3.Implies(z3.And(0 <= k, k < lead(c)), charat(c, k) == SP))))
     eng.axioms_once(("trail", str(c)), z3.And(0 <= trail(c), trail(c) <= n, z3.Implies(trail(c) < n, charat(c, n - 1 - trail(c)) != SP),
-                                              z3.ForAll([k], z3.Implies(z3.And(n - trail(c) <= k, k < n), charat(c, k) == SP))))
+                                              QAll([k], z3.Implies(z3.And(n - trail(c) <= k, k < n), charat(c, k) == SP))))
 
 
 def _re_findall(eng, args, kw, env, pc, node):
@@ -269,11 +379,11 @@ def slice_charnos_head(fn):
 WF = {
     # assumed parser contract for a node position (see module docstring)
     "wfpos": "lambda n: hasattr(n, 'lineno') and hasattr(n, 'col_offset') and 1 <= n.lineno and n.lineno <= nl(source)"
-             " and 0 <= n.col_offset and n.col_offset <= linelen(source, n.lineno - 1)",
+             " and 0 <= n.col_offset and charpos(source, n.lineno, n.col_offset) <= ls(source, n.lineno)",
     "wfend": "lambda n: implies(hasattr(n, 'end_lineno') and n.end_lineno is not None, hasattr(n, 'end_col_offset') and n.end_col_offset is not None"
-             " and n.lineno <= n.end_lineno and n.end_lineno <= nl(source) and 0 <= n.end_col_offset and n.end_col_offset <= linelen(source, n.end_lineno - 1))",
-    "s0": "lambda n: ls(source, n.lineno - 1) + n.col_offset",
-    "e0": "lambda n: ls(source, n.end_lineno - 1) + n.end_col_offset",
+             " and n.lineno <= n.end_lineno and n.end_lineno <= nl(source) and 0 <= n.end_col_offset and charpos(source, n.end_lineno, n.end_col_offset) <= ls(source, n.end_lineno))",
+    "s0": "lambda n: charpos(source, n.lineno, n.col_offset)",
+    "e0": "lambda n: charpos(source, n.end_lineno, n.end_col_offset)",
 }
 
 charnos_tail = Unit(
@@ -299,8 +409,8 @@ charnos_tail = Unit(
         ("end-is-node-end", "implies(hasattr(node, 'end_lineno') and node.end_lineno is not None and s0(start) < e0(node) and source[e0(node) - 1] != ' ', result.end == e0(node))"),
         ("no-trailing-space", "implies(hasattr(node, 'end_lineno') and node.end_lineno is not None and result.start < result.end and not keep_first_indent, source[result.end - 1] != ' ')"),
     ],
-    calls={"_get_position": ("contract", get_position2), "re.findall": _re_findall},
-    ghost=dict(TEXT_GHOST, **WF), attrs=NODE_ATTRS, records=REC, props=("C13", "C04"),
+    calls={"_get_position": ("contract", get_position2), "re.findall": _re_findall, "_get_charno": ("contract", get_charno_summary)},
+    ghost=dict(TEXT_GHOST, charpos=g_charpos, **WF), attrs=NODE_ATTRS, records=REC, props=("C13", "C04"),
     exc_mode={"IndexError": "oblige", "TypeError": "oblige", "ValueError": "oblige"},
 )
 charnos_tail.key_suffix = "offsets"
